@@ -8,7 +8,7 @@ var Profiles = map[string]Profile{
 	// spec lab, routing shape: C01
 	"routes": {Name: "routes", MaxControllers: 4, MaxMethods: 8, MultiPkg: true, MultiFile: true, Hidden: true, Deprecated: true,
 		NonEndpoint: true, ParamIn: []string{"path", "query"}, ParamTypeLevel: 0, Models: 0, RouteStyle: "slashy", CtlRouteParams: true,
-		VerbPathReuse: true, Descriptions: true, BareControllers: true},
+		VerbPathReuse: true, Descriptions: true, BareControllers: true, TemplateTwins: true},
 	// spec lab, signatures: C06
 	"signatures": {Name: "signatures", MaxControllers: 3, MaxMethods: 6, MultiPkg: true, MultiFile: true, Hidden: true, Deprecated: true,
 		ParamIn: allIn, ParamTypeLevel: 2, Validators: true, Models: 1, CustomErrors: true, Responses: true, RouteStyle: "clean",
@@ -19,7 +19,7 @@ var Profiles = map[string]Profile{
 		Descriptions: true, AnyBytesTime: true, NestedSlices: true, UsageValidators: true},
 	// spec lab, security: C04
 	"security": {Name: "security", MaxControllers: 3, MaxMethods: 5, MultiPkg: true, MultiFile: true, Hidden: true, Security: true,
-		DefaultSecP: 0.5, EnforceP: 0.4, ParamIn: []string{"path", "query"}, ParamTypeLevel: 0, Models: 0, RouteStyle: "clean"},
+		DefaultSecP: 0.5, EnforceP: 0.4, ParamIn: []string{"path", "query"}, ParamTypeLevel: 0, Models: 0, RouteStyle: "clean", OAuthSchemes: true},
 	// router labs (compile-safe per the acceptance survey, DESIGN Appendix L): C02 C03 C05 C12
 	"router": {Name: "router", MaxControllers: 3, MaxMethods: 5, MultiPkg: true, MultiFile: true, Hidden: true, ParamIn: allIn, ParamTypeLevel: 2,
 		Validators: true, RuntimeValidators: true, Models: 1, CustomErrors: true, Responses: false, RouteStyle: "clean", CtlRouteParams: true, VerbPathReuse: true,
@@ -28,5 +28,5 @@ var Profiles = map[string]Profile{
 	"fullspec": {Name: "fullspec", MaxControllers: 3, MaxMethods: 6, MultiPkg: true, MultiFile: true, Hidden: true, Deprecated: true,
 		Security: true, DefaultSecP: 0.4, ParamIn: allIn, ParamTypeLevel: 2, Validators: true, FieldValidators: true, Models: 2,
 		CustomErrors: true, Responses: true, RouteStyle: "clean", CtlRouteParams: true, VerbPathReuse: true, Maps: true,
-		Descriptions: true, WireNames: true, CtxParams: true, AnyBytesTime: true, NestedSlices: true},
+		Descriptions: true, WireNames: true, CtxParams: true, AnyBytesTime: true, NestedSlices: true, TemplateTwins: true, OAuthSchemes: true},
 }
